@@ -11,7 +11,7 @@
     does not wrap: fewer than 2^64 - timeout events). *)
 From Coq Require Import List ZArith NArith Bool.
 Import ListNotations.
-Require Import Aurora.Consts Aurora.C26.Model Aurora.C26.Proofs Aurora.C26.ProofsSim Aurora.C26.ProofsSpec.
+Require Import Aurora.Consts Aurora.C26.Model Aurora.C26.Proofs Aurora.C26.ProofsSim Aurora.C26.ProofsSpec Aurora.C26.Variant.
 Local Open Scope N_scope.
 
 (** the (sequence, deadline) bookkeeping blocklists exactly what counting the
@@ -62,6 +62,27 @@ Proof.
   intros c s h1 e h2 k Hin. exact (conj (step_output_nodup c _ e) (at_most_once c s h1 e h2 k Hin)).
 Qed.
 Print Assumptions C26_at_most_once_per_flag.
+
+(** schedules inside a sweep: from ANY state (whatever interleaving of sweep
+    steps with Flag/Unflag/Prune led to it) the step that blocklists x finds x
+    flagged and due at that moment; with [C26_never_after_unflag/_prune], which
+    quantify over all event lists, no Unflag/Prune of x since the sweep started
+    can have happened without a new effective Flag x *)
+Theorem C26_blocked_only_if_due_at_its_step : forall c s k x,
+  In x (snd (step c s (SweepPeer k))) ->
+  x = k /\ exists ba, lookup (flagged s) k = Some ba /\ due (seq s) ba = true.
+Proof. exact blocked_only_if_due_now. Qed.
+Print Assumptions C26_blocked_only_if_due_at_its_step.
+
+(** NOT about HEAD: the snapshot-then-unlock variant of block() (collect the
+    due peers under the lock, blocklist them unlocked without re-checking)
+    blocklists a peer after its Unflag with no Flag in between *)
+Theorem C26_snapshot_unlock_variant_refuted :
+  exists c h1 h2 k,
+    config_ok c /\ vno_flag k h2 /\
+    In k (vblocked c (vrun c (mkV init []) (h1 ++ [VE (Unflag k)])) h2).
+Proof. exact snapshot_variant_refuted. Qed.
+Print Assumptions C26_snapshot_unlock_variant_refuted.
 
 (** a whole sweep blocklists exactly the due peers, whatever the map order *)
 Theorem C26_sweep_exactly_due : forall c h x,
